@@ -29,3 +29,42 @@ CONTRACTS = {
     ensures=[('accepted-value-unchanged', 'result == v'),
              ('in-the-mode-only-members', f'implies({FLAG}, enum_member("Unit", result))')]),
 }
+
+OSET = {'cls': 'OriginSet', 'fields': {'set_name': 'none', '_eflr_item_list': 'seqlist[ref]'}}
+for _fsn in ('none', 'opq:uval'):
+    CONTRACTS[f'OriginItem.__init__[file_set_number={"given" if _fsn != "none" else "absent"}]'] = dict(
+        target='OriginItem.__init__', props=['C17', 'C14', 'C09'], globals=GC, self_fields={},
+        params={'name': 'str', 'parent': OSET, 'origin_reference': 'int', 'kwargs': ({'file_set_number': _fsn} if _fsn != 'none' else {})},
+        returns='none', ghost={'rng_calls': ('int', '0'), 'clock_reads': ('int', '0')},
+        ref_fields={'name': 'str', '_copy_number': 'int', '_origin_reference': 'int?'},
+        may_raise=['AnyException', 'ValueError', 'TypeError'],
+        ensures=[('file-set-number-present', 'self.file_set_number._value is not None'),
+                 ('in-the-mode-sequential-small-number-not-random',
+                  f'implies({FLAG} and {"False" if _fsn != "none" else "True"}, rng_calls == 0 and self.file_set_number._value == converted(self.file_set_number, len(parent._eflr_item_list)))'),
+                 ('random-number-only-when-none-was-supplied', f'rng_calls <= {0 if _fsn != "none" else 1}'),
+                 ('outside-the-mode-a-random-number-in-range', f'implies(not {FLAG} and {"False" if _fsn != "none" else "True"}, rng_calls == 1)')])
+
+OPQ_MODELS = {'sdtype2': {'names': 'consttuple:K0,K1', '__getitem__': 'method:opq:dtype', '__isinstance__': {}, '__truthy__': True}}
+SPEC_UFS = {'issubdtype_np_signedinteger': (('opq',), 'bool')}
+SIGNED = lambda k: f"issubdtype_np_signedinteger(data._dtype['{k}'].base)"
+CONTRACTS['LogicalFile._check_data'] = dict(
+    props=['C17'], globals=GC, params={'data': {'cls': 'SourceDataWrapper', 'fields': {'_dtype': 'opq:sdtype2'}}}, returns='none',
+    raises={'RuntimeError': f'{FLAG} and ({SIGNED("K0")} or {SIGNED("K1")})'},
+    ensures=[])
+
+CONTRACTS['StorageUnitLabel.__init__'] = dict(
+    props=['C17', 'C01', 'C12'], globals=GC, self_fields={},
+    params={'set_identifier': 'str', 'sequence_number': 'int', 'max_record_length': 'int'}, returns='none',
+    raises={'ValueError': f'({FLAG} and not hc_name_ok(set_identifier)) or max_record_length > 16384'},
+    ensures=[('fields', 'self.sequence_number == sequence_number and self.set_identifier == set_identifier and self.max_record_length == max_record_length'),
+             ('only-compatible-set-identifier-in-the-mode', f'implies({FLAG}, hc_name_ok(self.set_identifier))')])
+FHSET = {'cls': 'FileHeaderSet', 'fields': {'set_name': 'none', '_eflr_item_list': 'seqlist[ref]'}}
+CONTRACTS['FileHeaderItem.__init__'] = dict(
+    props=['C17', 'C09', 'C12'], globals=GC, self_fields={},
+    params={'header_id': 'str', 'parent': FHSET, 'sequence_number': 'int', 'identifier': 'str'}, returns='none',
+    ref_fields={'name': 'str', '_copy_number': 'int', '_origin_reference': 'int?'},
+    raises={'ValueError': f'len(header_id) > 65 or sequence_number <= 0 or sequence_number > 9999999999 or len(identifier) != 1 or '
+                          f'({FLAG} and (not hc_name_ok(header_id) or not hc_name_ok(identifier)))'},
+    ensures=[('header-id-fits-its-65-column-field', 'len(self.header_id) <= 65'), ('sequence-number-fits-10-digits', '0 < self.sequence_number and self.sequence_number <= 9999999999'),
+             ('only-compatible-id-in-the-mode', f'implies({FLAG}, hc_name_ok(self.header_id))'),
+             ('registered-in-its-header-set', 'parent._eflr_item_list == old(parent._eflr_item_list) + [self]')])
